@@ -459,7 +459,8 @@ fn build_enum(
             impl #name_ident {
                 #visibility unsafe fn get() -> Self {
                     unsafe {
-                        *(#address as *const Self)
+                        // `read` instead of a dereference: the enum need not be `Copy`
+                        (#address as *const Self).read()
                     }
                 }
             }
